@@ -278,27 +278,27 @@ namespace Verde
 /-! ### Convex combinations of a list of points -/
 
 /-- `Σ wᵢ · Lᵢ`, coordinate by coordinate. -/
-def wsum : List Rat → List Pt → Pt
-  | x :: w, s :: L => (x * s.1 + (wsum w L).1, x * s.2 + (wsum w L).2)
+def ptWsum : List Rat → List Pt → Pt
+  | x :: w, s :: L => (x * s.1 + (ptWsum w L).1, x * s.2 + (ptWsum w L).2)
   | _, _ => (0, 0)
 
 /-- `p` is a convex combination of the points of `L`: non-negative weights, one per point, adding up to one. -/
 def IsConvComb (L : List Pt) (p : Pt) : Prop :=
-  ∃ w : List Rat, w.length = L.length ∧ (∀ x ∈ w, 0 ≤ x) ∧ w.sum = 1 ∧ p = wsum w L
+  ∃ w : List Rat, w.length = L.length ∧ (∀ x ∈ w, 0 ≤ x) ∧ w.sum = 1 ∧ p = ptWsum w L
 
 /-- A predicate that is closed under moving towards points of `S` contains `(1 − Σw)·q + Σ wᵢ·Lᵢ` for every `q` it contains,
     every sub-list `L` of points of `S` and all non-negative weights with `Σw ≤ 1`. -/
 theorem closed_towards_sum (S : List Pt) (C : Pt → Prop)
     (hC : ∀ q, C q → ∀ d ∈ S, ∀ t : Rat, 0 ≤ t → t ≤ 1 → C (lerp t q d)) :
     ∀ (L : List Pt) (w : List Rat) (q : Pt), (∀ s ∈ L, s ∈ S) → w.length = L.length → (∀ x ∈ w, 0 ≤ x) → w.sum ≤ 1 →
-      C q → C ((1 - w.sum) * q.1 + (wsum w L).1, (1 - w.sum) * q.2 + (wsum w L).2) := by
+      C q → C ((1 - w.sum) * q.1 + (ptWsum w L).1, (1 - w.sum) * q.2 + (ptWsum w L).2) := by
   intro L
   induction L with
   | nil =>
     intro w q _ hlen _ _ hq
     have : w = [] := List.length_eq_zero_iff.mp (by simpa using hlen)
     subst this
-    simpa [wsum] using hq
+    simpa [ptWsum] using hq
   | cons s L ih =>
     intro w q hS hlen hw hsum hq
     match w, hlen with
@@ -313,7 +313,7 @@ theorem closed_towards_sum (S : List Pt) (C : Pt → Prop)
       by_cases h0 : 1 - w'.sum = 0
       · have hx0 : x = 0 := by linarith
         have := ih w' q hS' hlen' hw' hsum' hq
-        simpa [wsum, hx0] using this
+        simpa [ptWsum, hx0] using this
       · have hpos : 0 < 1 - w'.sum := lt_of_le_of_ne (by linarith) (Ne.symm h0)
         have ht1 : x / (1 - w'.sum) ≤ 1 := by rw [div_le_one hpos]; linarith
         have hq' := hC q hq s hs (x / (1 - w'.sum)) (div_nonneg hx hpos.le) ht1
@@ -321,7 +321,7 @@ theorem closed_towards_sum (S : List Pt) (C : Pt → Prop)
         have e : ∀ u v : Rat, (1 - w'.sum) * ((1 - x / (1 - w'.sum)) * u + x / (1 - w'.sum) * v)
             = (1 - (x + w'.sum)) * u + x * v := by
           intro u v; field_simp; ring
-        simp only [lerp, wsum] at this ⊢
+        simp only [lerp, ptWsum] at this ⊢
         rw [e, e] at this
         convert this using 2 <;> ring
 
@@ -338,39 +338,39 @@ theorem isConvComb_mem (L : List Pt) (s : Pt) (hs : s ∈ L) : IsConvComb L s :=
         rcases List.mem_cons.mp hx with rfl | hx
         · norm_num
         · rw [(List.mem_replicate.mp hx).2]
-      · have hz : ∀ (n : Nat) (M : List Pt), wsum (List.replicate n 0) M = (0, 0) := by
+      · have hz : ∀ (n : Nat) (M : List Pt), ptWsum (List.replicate n 0) M = (0, 0) := by
           intro n
           induction n with
-          | zero => intro M; simp [wsum]
+          | zero => intro M; simp [ptWsum]
           | succ n ihn =>
             intro M
             cases M with
-            | nil => simp [wsum]
-            | cons m M => simp [List.replicate_succ, wsum, ihn M]
-        simp [wsum, hz]
+            | nil => simp [ptWsum]
+            | cons m M => simp [List.replicate_succ, ptWsum, ihn M]
+        simp [ptWsum, hz]
     · obtain ⟨w, hl, hw, hsum, hp⟩ := ih h
       refine ⟨0 :: w, by simp [hl], ?_, by simp [hsum], ?_⟩
       · intro x hx
         rcases List.mem_cons.mp hx with rfl | hx
         · exact le_refl _
         · exact hw x hx
-      · simp [wsum, ← hp]
+      · simp [ptWsum, ← hp]
 
 end Verde
 
 namespace Verde
 
 theorem wsum_zipWith (t : Rat) : ∀ (L : List Pt) (w1 w2 : List Rat), w1.length = L.length → w2.length = L.length →
-    wsum (List.zipWith (fun x y => (1 - t) * x + t * y) w1 w2) L = lerp t (wsum w1 L) (wsum w2 L) := by
+    ptWsum (List.zipWith (fun x y => (1 - t) * x + t * y) w1 w2) L = lerp t (ptWsum w1 L) (ptWsum w2 L) := by
   intro L
   induction L with
-  | nil => intro w1 w2 h1 h2; simp [wsum, lerp]
+  | nil => intro w1 w2 h1 h2; simp [ptWsum, lerp]
   | cons s L ih =>
     intro w1 w2 h1 h2
     match w1, w2, h1, h2 with
     | x :: w1, y :: w2, h1, h2 =>
       have := ih w1 w2 (by simpa using h1) (by simpa using h2)
-      simp only [List.zipWith_cons_cons, wsum, this, lerp]
+      simp only [List.zipWith_cons_cons, ptWsum, this, lerp]
       ext <;> simp <;> ring
 
 theorem sum_zipWith_lerp (t : Rat) : ∀ (w1 w2 : List Rat), w1.length = w2.length →
